@@ -1280,6 +1280,8 @@ class WcParse(Generic[AnyStr]):
                 star = _STAR
             globstar = ''
         value = star
+        # Number of duplicate stars already consumed while looking for a `globstar`
+        consumed = 0
 
         if self.after_start and self.globstar and not self.in_list:
             skip = True
@@ -1289,6 +1291,7 @@ class WcParse(Generic[AnyStr]):
                     i.rewind(1)
                     raise StopIteration
                 skip = False
+                consumed = 1
 
                 # Test for triple star. If found, do not make a capturing group.
                 # Capturing groups are used to filter out symlinks, but triple stars force symlinks.
@@ -1298,6 +1301,7 @@ class WcParse(Generic[AnyStr]):
                         i.rewind(1)
                         raise StopIteration
                     capture = False
+                    consumed = 2
 
             except StopIteration:
                 # Could not acquire a second star, so assume single star pattern
@@ -1342,8 +1346,12 @@ class WcParse(Generic[AnyStr]):
             try:
                 c = next(i)
                 while c == '*':
+                    consumed += 1
                     c = next(i)
                 i.rewind(1)
+                if consumed and self.extend and c == '(':
+                    # The last star may open an extended pattern list `*(...)`, leave it for the list parser.
+                    i.rewind(1)
             except StopIteration:
                 pass
 
